@@ -495,7 +495,9 @@ def replay(path):
         print("raised  :", repr(node.error))
     print("observed:", repr(node.impl.content()))
     print("expected:", repr(node.ref.content()))
-    return 1 if (node.error or node.impl.content() != node.ref.content()) else 0
+    print("queue   :", node.impl.queue())
+    return 1 if (node.error or not node.ref.matches(node.impl.content())
+                 or (node.rule in QUEUE and rp["history"][-1] in ("START", "R", "STOP", "X") and node.impl.queue())) else 0
 
 
 def run():
